@@ -228,7 +228,10 @@ func (s *LegacyServer) CodeExchange(ctx context.Context, r *ClientRequest[oidc.A
 	if err != nil {
 		return nil, err
 	}
-	if r.Client.AuthMethod() == oidc.AuthMethodNone || r.Data.CodeVerifier != "" {
+	if r.Client.GetID() != authReq.GetClientID() {
+		return nil, oidc.ErrInvalidGrant()
+	}
+	if r.Client.AuthMethod() == oidc.AuthMethodNone || authReq.GetCodeChallenge() != nil || r.Data.CodeVerifier != "" {
 		if err = AuthorizeCodeChallenge(r.Data.CodeVerifier, authReq.GetCodeChallenge()); err != nil {
 			return nil, err
 		}
